@@ -776,6 +776,12 @@ Violations(ev) ==
     [] ev.e = "xt_call" -> XtCallViol(ev)
     [] ev.e = "set_stop" -> Chk("C03_ShutdownQuiescent", SetStopViol(ev))
     [] ev.e = "stall" -> Chk("C03_StallIsReal", StallViol(ev))
+                         \* a runahead-limited task that lies within the limit of the present pool is about to be
+                         \* released and may run: the workflow is not stalled
+                         \cup Chk("C03_StallIsReal_RunaheadReleasable",
+                                  \A i \in SyncIds(ev) : LET s == SyncRec(ev, i) IN
+                                     ~(s.st = "waiting" /\ s.rh /\ ~s.held /\ Pt(i) <= StopPt
+                                       /\ Pt(i) <= RunaheadLimit(W, Min({Pt(j) : j \in SyncIds(ev)}), ev.maxfut, StopPt)))
     [] ev.e = "end" -> EndViol(ev)
     [] ev.e = "boot" -> BootViol(ev)
     [] ev.e = "quiescent" -> QuiescentViol(ev)
